@@ -219,6 +219,9 @@ package encoder
 //@   props C18 C06 C17 C05
 //@   requires bufOK(src, cursor)
 //@   ensures err == nil ==> (simpleEscC(src[cursor]) && c == cursor) || (src[cursor] == 'u' && c == cursor + 4 && c < len(src) - 1 && hexAt(src, cursor+1) && hexAt(src, cursor+2) && hexAt(src, cursor+3) && hexAt(src, cursor+4))
+// completeness: every escape of the JSON grammar is accepted (a validator that rejects valid text breaks Compact/Indent too)
+//@   ensures simpleEscC(src[cursor]) ==> err == nil
+//@   ensures src[cursor] == 'u' && cursor + 4 < len(src) && hexAt(src, cursor+1) && hexAt(src, cursor+2) && hexAt(src, cursor+3) && hexAt(src, cursor+4) ==> err == nil
 //@   assigns nothing
 //@   loop 1: unroll 4
 
